@@ -52,6 +52,24 @@ def main(argv):
         conds = {c.name: c for c in mod.conditions(tier)}
         cond = conds[condname]
         tuning.trace_repo_functions()
+        if cond.concrete:
+            import vlib.world as _w
+
+            _w.W.concrete = True
+            t1 = time.time()
+            try:
+                ok = cond.fn()
+                detail = ""
+            except Exception as e:
+                ok = False
+                detail = "".join(traceback.format_exception(type(e), e, e.__traceback__))[-2000:]
+            res.update({"status": "confirmed" if ok else "refuted", "paths": 1, "analysis_s": round(time.time() - t1, 2), "concrete": True,
+                        "cex": {"args": [], "kwargs": {}}, "cex_message": "contract-validation item failed " + detail, "cex_kind": "CONCRETE",
+                        "bounds": cond.bounds, "twin": False, "group": cond.group, "functions": sorted(tuning.TRACED), "solver": dict(tuning.STATS)})
+            from vlib.common import PathLog as _PL
+
+            res["path_log"] = {"entries": len(_PL.entries), "distinct": sorted(set(_PL.entries)), "nontrivial": sorted(_PL.nontrivial), "samples": _PL.samples}
+            raise SystemExit
         from crosshair.core_and_libs import analyze_function, run_checkables
         from crosshair.options import AnalysisKind, AnalysisOptionSet
 
@@ -101,6 +119,8 @@ def main(argv):
         res["bounds"] = cond.bounds
         res["twin"] = cond.twin
         res["group"] = cond.group
+    except SystemExit:
+        pass
     except BaseException as e:  # noqa - worker boundary
         res["status"] = "error"
         res["error"] = "".join(traceback.format_exception(type(e), e, e.__traceback__))[-4000:]
